@@ -30,8 +30,9 @@ def trace_validate(module, records, cfg="SPECIFICATION TSpec\nCHECK_DEADLOCK FAL
 
 def c30(tier):
   run = common.Run("C30", tier, "model_checking")
-  run.assumptions += ASSUME_B + ["pre-emption points: every read/write of the decorator's instance slot, the constructor, and lock operations",
-                                 "two concurrent first requests are explored exhaustively, three with at most 2 (quick) / 3 (thorough) pre-emptions"]
+  run.assumptions += ASSUME_B + ["pre-emption points: every source line of miros/singleton.py, every read/write of the decorator's instance slot, "
+                                 "the constructor, and lock operations",
+                                 "two concurrent first requests are explored with at most 3 (quick) / 5 (thorough) pre-emptions, three with at most 2 / 3"]
   for threads in (['"t1"', '"t2"'], ['"t1"', '"t2"', '"t3"']):
     cfg = "SPECIFICATION Spec\nCONSTANTS Threads = {%s}\nVariant = \"locked\"\nINVARIANT OneInstance\nINVARIANT SameForAll\n" % ", ".join(threads)
     r = tlc.run("Singleton.tla", cfg, workers=4, timeout=600)
@@ -40,7 +41,8 @@ def c30(tier):
       raise common.MachineryError("Singleton.tla (locked) violates %s" % r.violated)
     run.add(states=r.distinct, transitions=r.generated,
             tlc_runs=["Singleton %d threads, locked: %d distinct states (no deadlock); OneInstance, SameForAll hold" % (len(threads), r.distinct)])
-  jobs = [(k, 2, 99, 2000) for k in KLASSES] + [(k, 3, 2 if tier == "quick" else 3, 1500 if tier == "quick" else 20000) for k in KLASSES]
+  jobs = [(k, 2, 3 if tier == "quick" else 5, 2500 if tier == "quick" else 40000) for k in KLASSES] + \
+         [(k, 3, 2 if tier == "quick" else 3, 1500 if tier == "quick" else 20000) for k in KLASSES]
   with mp.get_context("fork").Pool(12) as pool:
     allres = [x for part in pool.map(_sg_work, jobs) for x in part]
   recs = [{"tid": i, "made": r["made"], "got": r["got"], "final": r["final"], "errors": r["errors"], "outcome": r["outcome"], "done": r["done"]}
@@ -53,7 +55,7 @@ def c30(tier):
                      "errs": r["errs"]})
   run.add(traces_validated_against_impl=len(recs), evaluations=len(recs), states=t.distinct, transitions=t.generated,
           distinct_nontrivial=len({json.dumps([k, n, [c0[0] for c0 in r["choices"]]]) for k, n, b, r in allres}),
-          exhaustive_two_thread_interleavings={k: sum(1 for kk, n, b, r in allres if kk == k and n == 2) for k in KLASSES})
+          two_thread_interleavings={k: sum(1 for kk, n, b, r in allres if kk == k and n == 2) for k in KLASSES})
   run.sample({"klass": allres[0][0], "threads": allres[0][1], "ops": allres[0][3]["ops"], "got": allres[0][3]["got"]})
   return run.finish()
 
@@ -93,7 +95,7 @@ def _reg_explore(args):
 
 def c25(tier):
   run = common.Run("C25", tier, "model_checking")
-  run.assumptions += ASSUME_B + ["pre-emption points: every dictionary operation of the registry (membership, len, get, set) and between the "
+  run.assumptions += ASSUME_B + ["pre-emption points: every source line of miros/event.py, every dictionary operation of the registry (membership, len, get, set) and between the "
                                  "elements of a Python-level loop over a view; a view consumed by C code (list(), `in`) is one atomic operation",
                                  "names are identifier-shaped and are not attributes of the registry object"]
   cfg = ("SPECIFICATION Spec\nCONSTANTS Threads = {\"t1\", \"t2\"}\nProg <- ProgDef\nVariant = \"locked\"\nBuiltins = 10\n"
@@ -105,7 +107,7 @@ def c25(tier):
   run.add(states=r.distinct, transitions=r.generated, tlc_runs=["Signals 2 threads x 2 names, locked: %d distinct states (deadlock-free); Injective, Positive, Stable hold" % r.distinct])
   n = 2000 if tier == "quick" else 40000
   chunk = max(1, (n + 63) // 64)
-  pairs = [([o1, n1], [o2, n2]) for o1 in ("append", "attr", "ev_name") for o2 in ("append", "attr", "ev_name", "ev_num")
+  pairs = [([o1, n1], [o2, n2]) for o1 in ("append", "attr", "ev_name") for o2 in ("append", "attr", "ev_name", "ev_num", "name_for")
            for n1, n2 in (("NA", "NB"), ("NA", "NA"))]
   with mp.get_context("fork").Pool(16) as pool:
     recs = [x for part in pool.map(_reg_work, [(common.seed(), lo, min(n, lo + chunk)) for lo in range(0, n, chunk)]) for x in part]
@@ -139,6 +141,12 @@ def _payload(rng, depth=0):
     return "".join(rng.choice(["a", "B", " ", "\"", "\\", "\n", "é", "中", "\U0001F600", "/", "\t", "0"]) for _ in range(rng.randint(0, 8)))
   if k in (5, 6):
     return [_payload(rng, depth + 1) for _ in range(rng.randint(0, 4))]
+  if rng.random() < 0.3:
+    # a payload that looks like (part of) a serialized event itself - e.g. an event forwarded inside another one
+    d = {}
+    for key in rng.sample(["signal_name", "payload", "signal", "name", "event"], rng.randint(1, 3)):
+      d[key] = rng.choice(["RT_inner", "ENTRY_SIGNAL", 3, ["x"], None]) if key in ("signal_name", "signal") and rng.random() < 0.7 else _payload(rng, depth + 1)
+    return d
   return {"".join(rng.choice("abk_ é\"") for _ in range(rng.randint(0, 4))): _payload(rng, depth + 1) for _ in range(rng.randint(0, 4))}
 
 
